@@ -22,10 +22,17 @@ import (
 	"golang.org/x/tools/go/ssa/ssautil"
 )
 
-const (
-	verifDir = "/verif"
-	modPath  = "github.com/paulmach/osm"
-)
+const modPath = "github.com/paulmach/osm"
+
+// verifDir is /verif; SYMGO_VERIF points at a snapshot of harness/, spec/ and
+// known_findings.json when seeded mutations are run in bulk while /verif is being edited
+// (never used by the registered commands).
+var verifDir = func() string {
+	if d := os.Getenv("SYMGO_VERIF"); d != "" {
+		return d
+	}
+	return "/verif"
+}()
 
 // repoDir is /repo; SYMGO_REPO points the checks at a scratch worktree when they are
 // run against seeded mutations (never used by the registered commands).
